@@ -6,21 +6,26 @@
   order kept" — characterised by `mem_firstOcc`, `nodup_firstOcc`, `firstOcc_sublist`.
 -/
 import AHP.Lemmas.Coll
+import AHP.Lemmas.CollIdent
 namespace AHP.C18
-open AHP AHP.Coll
+open AHP AHP.Coll AHP.Ident
 
-/-! #### Identity -/
+/-! #### Identity
 
-/-- What `==`, `!=` and `hash` look at: the uid only (`AdvancedTag.__eq__/__ne__/__hash__`). -/
-structure Elem where
-  uid : Nat
-  name : Str
-  attrs : List (Str × Option Str)
-  content : List Nat
+  `Elem`, `Elem.eq`, `Elem.ne`, `Elem.hash`, `Elem.isTagEqual` and the Python list primitives on elements (`pyIn`, `pyIndex`,
+  `pyRemove`) live in the MODEL (AHP/Model/Coll.lean, namespace `Ident`; until review B, H3 the first four were defined
+  in this file).  What a model can say about identity:
 
-def Elem.eq (a b : Elem) : Bool := a.uid == b.uid
-def Elem.ne (a b : Elem) : Bool := a.uid != b.uid
-def Elem.hash (h : Nat → Nat) (a : Elem) : Nat := h a.uid
+  * `==` / `!=` / `hash` are *defined* on the uid (that is the code: `self.uid == other.uid`, `hash(self.uid)`), so
+    `eq_iff_uid`, `ne_iff_not_eq`, `hash_of_eq` unfold the model — they record the reading, the harness's identity oracle
+    (originals, clones, copies, unpickled copies, look-alikes) decides it on the library;
+  * the content lies in what identity is *used for*: the collection model stores uids, and `pyIn_by_uid`,
+    `pyIndex_by_uid`, `pyRemove_by_uid` prove that the list primitives a `TagCollection` relies on, run on ELEMENTS
+    with `Elem.eq`, are the `Nat` primitives on the uid lists, whatever names, attributes and contents the elements
+    carry;
+  * "hash alike exactly when they are the same element": the direction equal ⇒ same hash holds for any hash function;
+    the converse is injectivity of Python's `hash` on uid values — an ASSUMPTION (`hinj` below; a 64-bit hash of a
+    128-bit uuid cannot be injective, the harness treats a collision as not a realistic event). -/
 
 /-- C18a: equality is identity of uid, whatever the name, attributes or content; `!=` is its negation;
     equal elements hash alike. -/
@@ -28,6 +33,86 @@ theorem eq_iff_uid (a b : Elem) : a.eq b = true ↔ a.uid = b.uid := by simp [El
 theorem ne_iff_not_eq (a b : Elem) : a.ne b = !(a.eq b) := by simp [Elem.ne, Elem.eq, bne]
 theorem hash_of_eq (h : Nat → Nat) (a b : Elem) (e : a.eq b = true) : a.hash h = b.hash h := by
   simp [Elem.eq] at e; simp [Elem.hash, e]
+
+/-- C18a: "regardless of name, attributes or content" — elements that share the uid are equal and hash alike whatever
+    else they carry; elements with different uids are unequal although everything else is the same. -/
+theorem eq_regardless (u : Nat) (n1 n2 : Str) (a1 a2 : List (Str × Option Str)) (c1 c2 : List Nat) (h : Nat → Nat) :
+    (Elem.mk u n1 a1 c1).eq (Elem.mk u n2 a2 c2) = true ∧ (Elem.mk u n1 a1 c1).ne (Elem.mk u n2 a2 c2) = false ∧
+    (Elem.mk u n1 a1 c1).hash h = (Elem.mk u n2 a2 c2).hash h := by
+  simp [Elem.eq, Elem.ne, Elem.hash]
+
+theorem ne_of_uid_ne (u1 u2 : Nat) (n : Str) (a : List (Str × Option Str)) (c : List Nat) (hu : u1 ≠ u2) :
+    (Elem.mk u1 n a c).eq (Elem.mk u2 n a c) = false ∧ (Elem.mk u1 n a c).ne (Elem.mk u2 n a c) = true := by
+  simp [Elem.eq, Elem.ne, hu]
+
+/-- C18a, both directions of "hash alike exactly when the same element": ⇐ for every hash function; ⇒ under the
+    assumption that the hash function is injective on uids (see the header). -/
+theorem hash_eq_iff (h : Nat → Nat) (hinj : ∀ x y, h x = h y → x = y) (a b : Elem) :
+    a.hash h = b.hash h ↔ a.eq b = true := by
+  constructor
+  · intro e
+    exact (eq_iff_uid a b).2 (hinj _ _ e)
+  · exact hash_of_eq h a b
+
+/-- the converse really is an assumption: a constant hash function equates all elements -/
+example : (Elem.mk 1 [] [] []).hash (fun _ => 0) = (Elem.mk 2 [] [] []).hash (fun _ => 0) ∧
+    (Elem.mk 1 [] [] []).eq (Elem.mk 2 [] [] []) = false := by decide
+
+/-- C18a: the list primitives of a `TagCollection` (`x in c`, `c.index(x)`, `c.remove(x)` — they compare with `==`),
+    run on elements, are the primitives of the collection model run on the uids: `list.__contains__` is `contains`,
+    `list.index` the first position of the uid, `list.remove` is `erase` (ValueError exactly when the uid is absent). -/
+theorem list_primitives_by_uid (l : List Elem) (x : Elem) :
+    pyIn l x = (l.map (·.uid)).contains x.uid ∧
+    pyIndex l x = natIndex (l.map (·.uid)) x.uid ∧
+    (pyRemove l x).map (List.map (·.uid)) =
+      (if (l.map (·.uid)).contains x.uid then some ((l.map (·.uid)).erase x.uid) else none) :=
+  ⟨pyIn_by_uid l x, pyIndex_by_uid l x, pyRemove_by_uid l x⟩
+
+/-- a look-alike (same name, attributes, content; other uid) is not found, a renamed element with the uid is -/
+example : pyIn [⟨1, "a".toList, [], []⟩, ⟨2, "b".toList, [], []⟩] ⟨3, "a".toList, [], []⟩ = false ∧
+    pyIn [⟨1, "a".toList, [], []⟩, ⟨2, "b".toList, [], []⟩] ⟨2, "zzz".toList, [("k".toList, none)], [7]⟩ = true ∧
+    (pyRemove [⟨1, "a".toList, [], []⟩, ⟨2, "b".toList, [], []⟩] ⟨1, "q".toList, [], []⟩).map (List.map (·.uid)) = some [2] := by
+  decide
+
+/-! #### isTagEqual -/
+
+/-- C18a **"isTagEqual compares name and attributes only"**: on attribute dictionaries (pairwise distinct names — the
+    store is a `dict`) `isTagEqual` is true exactly when the tag names are equal and the two elements carry the same
+    set of (attribute name, value) pairs (`SameTag`, AHP/Lemmas/CollIdent.lean; a value-less attribute is the pair with
+    value `none`, different from a missing one). -/
+theorem isTagEqual_iff_same (n1 n2 : Str) (a1 a2 : List (Str × Option Str)) (h1 : IsDict a1) (h2 : IsDict a2) :
+    isTagEqual n1 a1 n2 a2 = true ↔ (n1 = n2 ∧ ∀ k v, (k, v) ∈ a1 ↔ (k, v) ∈ a2) :=
+  isTagEqual_iff n1 n2 a1 a2 h1 h2
+
+/-- … hence neither the order of the attributes, nor the uid, nor the content matters, and it is symmetric. -/
+theorem isTagEqual_invariant (a b a' b' : Elem) (ha : IsDict a.attrs) (hb : IsDict b.attrs)
+    (ha' : IsDict a'.attrs) (hb' : IsDict b'.attrs)
+    (hna : a'.name = a.name) (hnb : b'.name = b.name)
+    (hpa : ∀ k v, (k, v) ∈ a'.attrs ↔ (k, v) ∈ a.attrs) (hpb : ∀ k v, (k, v) ∈ b'.attrs ↔ (k, v) ∈ b.attrs) :
+    a'.isTagEqual b' = a.isTagEqual b ∧ a.isTagEqual b = b.isTagEqual a := by
+  have key : ∀ (x y : Elem), IsDict x.attrs → IsDict y.attrs →
+      (x.isTagEqual y = true ↔ SameTag x.name x.attrs y.name y.attrs) :=
+    fun x y hx hy => isTagEqual_iff _ _ _ _ hx hy
+  constructor
+  · rw [Bool.eq_iff_iff, key a' b' ha' hb', key a b ha hb]
+    simp only [SameTag, hna, hnb, hpa, hpb]
+  · rw [Bool.eq_iff_iff, key a b ha hb, key b a hb ha]
+    simp only [SameTag]
+    constructor
+    · rintro ⟨e, h⟩; exact ⟨e.symm, fun k v => (h k v).symm⟩
+    · rintro ⟨e, h⟩; exact ⟨e.symm, fun k v => (h k v).symm⟩
+
+/-- reordered attributes, another uid and other children: still tag-equal; a value-less attribute against a missing
+    one, or against the empty string: not -/
+example :
+    (Elem.mk 1 "a".toList [("k".toList, some "v".toList), ("b".toList, none)] [5]).isTagEqual
+      (Elem.mk 2 "a".toList [("b".toList, none), ("k".toList, some "v".toList)] []) = true ∧
+    (Elem.mk 1 "a".toList [("b".toList, none)] []).isTagEqual (Elem.mk 1 "a".toList [] []) = false ∧
+    (Elem.mk 1 "a".toList [("b".toList, none)] []).isTagEqual (Elem.mk 1 "a".toList [("b".toList, some [])] []) = false ∧
+    IsDict [("k".toList, some "v".toList), ("b".toList, (none : Option Str))] := by
+  refine ⟨by decide, by decide, by decide, ?_⟩
+  unfold IsDict
+  decide
 
 /-! #### The collection is an ordered set closed under its operators -/
 
@@ -156,6 +241,26 @@ theorem getAllNodeUids_same (f : Forest) (c : Coll) (y : Nat) :
 theorem elem_containsUid_iff (t : UTree) (y : Nat) : t.containsUid y = true ↔ y ∈ t.selfAndDesc :=
   UTree.containsUid_iff t y
 
+/-- C18c **`contains` / `containsUid` of a collection** are consistent with the trees below its members: true exactly
+    when some member has the element at or below it (`Forest.Below`: the inductive "itself, or below one of its
+    element children, at any depth" on the tree the member names) — equivalently when the uid is listed by
+    `getAllNodeUids`, equivalently when the element is in `getAllNodes`; `contains(em)` is `containsUid(em.uid)` and
+    looks at nothing else of `em`. -/
+theorem coll_containsUid_iff (f : Forest) (c : Coll) (y : Nat) :
+    (c.containsUid f y = true ↔ ∃ x ∈ c.items, f.Below x y) ∧
+    (c.containsUid f y = true ↔ y ∈ c.getAllNodeUids f) ∧
+    (c.containsUid f y = true ↔ y ∈ (c.getAllNodes f).items) ∧
+    (∀ em : Elem, c.contains f em = c.containsUid f em.uid) := by
+  have h1 := Coll.containsUid_iff f c y
+  have h2 : c.containsUid f y = true ↔ y ∈ c.getAllNodeUids f := by
+    rw [h1]
+    simp only [getAllNodeUids, List.mem_flatMap, Forest.mem_selfAndDesc_iff_below]
+  exact ⟨h1, h2, h2.trans (getAllNodeUids_same f c y), fun _ => rfl⟩
+
+/-- C18c: "below" for one tree is the relation one expects — the element-level `containsUid` decides it. -/
+theorem elem_containsUid_iff_has (t : UTree) (y : Nat) : t.containsUid y = true ↔ t.Has y :=
+  UTree.containsUid_iff_has t y
+
 /-- C18c: `uniqueTags` returns the distinct elements in order. -/
 theorem uniqueTags_spec (xs : List Nat) :
     (uniqueTags xs).items = firstOcc [] xs ∧ (uniqueTags xs).items.Nodup :=
@@ -172,5 +277,10 @@ example : Inv (ofList [3, 1, 3, 2, 1]) ∧ (ofList [3, 1, 3, 2, 1]).items = [3, 
   refine ⟨(ofList_spec _).1, by decide⟩
 example : (ofList [3, 1, 2]).sub [1, 1, 7] = some ⟨[3, 2], [3, 2]⟩ := by decide
 example : ((ofList [0, 2]).getAllNodes [.node 0 [.node 1 [.node 2 []]], .node 3 []]).items = [0, 1, 2] := by decide
+/-- a member's grandchild is contained, a sibling tree's root is not -/
+example : (ofList [0]).containsUid [.node 0 [.node 1 [.node 2 []]], .node 3 []] 2 = true ∧
+    (ofList [0]).containsUid [.node 0 [.node 1 [.node 2 []]], .node 3 []] 3 = false ∧
+    Forest.Below [.node 0 [.node 1 [.node 2 []]], .node 3 []] 0 2 :=
+  ⟨by decide, by decide, (Forest.containsUid_iff_below _ 0 2).1 (by decide)⟩
 
 end AHP.C18
